@@ -14,6 +14,7 @@ func init() {
 	register(&Prop{ID: "C11", Run: runC11,
 		Technique: "static analysis: value-flow of parameters and captured outputs (go/ssa slices), writer/reader agreement on the NAME=value encoding, ordering of the pipe reader against cmd.Run, sibling agreement of process executors",
 		Decided: []string{
+			"process executors append nothing static (Step.Variables, os.Environ) to the child's environment after the captured outputs (C11.outputs-last)",
 			"API start parameters flow unchanged into StartOptions.Params and into the `-p` argument through escapeArg and quoting only; the CLI hands --params (outer quotes removed) to the loader (C11.param-flow)",
 			"a captured output is stored under the step's output name as NAME=TrimSpace(stdout), and the retry-graph reader strips exactly the NAME= prefix (C11.output-store)",
 			"every graph node (both constructors) and every handler node gets the graph's shared output map before it can execute; both process executors append the map to the child's environment (C11.output-visibility)",
@@ -33,6 +34,7 @@ func runC11(e *Env) {
 	c11Capture(e)
 	c11Recorder(e)
 	c11ParamsOverrideEnv(e)
+	c11OutputsLast(e)
 }
 
 func c11ParamFlow(e *Env) {
